@@ -125,8 +125,8 @@ def check_pair(res, a, b, obs, direct, case):
     else:
         for r in ('<', '<=', '>', '>='):
             o = obs[r]
-            if o[0] == 'err' and o[1] != 'not_comparable':
-                bad('wrong-error-class', 'ordering error class', 'not_comparable', fmt_outcome(o))
+            if o[0] == 'err':
+                res.count("ordering_error:" + o[1])
     # direct API agrees with the programs
     if direct is not None:
         if direct.get('eq') != eq or direct.get('ne') != ne:
